@@ -97,15 +97,14 @@ def rule_p1(ctx, F):
     fn = ctx.need_fn(F, "ts_subtree_compress", "P1")
     if not fn:
         return
-    # the three nodes of a rotation, by role: tree = popped from the stack, child = its first child, grandchild = child's last child
-    s = {nm: [pt for pt, n in find(fn, "ts_subtree_summarize_children(%s, language)" % nm)] for nm in ("grandchild", "child", "tree")}
-    if not all(len(v) == 1 for v in s.values()):
-        calls3 = sorted((pt, arg_var(n, 0)) for pt, n in find(fn, "ts_subtree_summarize_children(_, language)"))
-        if len(calls3) == 3:
-            fn._renames = dict(getattr(fn, "_renames", {}), grandchild=calls3[0][1], child=calls3[1][1], tree=calls3[2][1])
-            fn._renames = {k: v for k, v in fn._renames.items() if k != v}
-            # roles must still be what the names claimed: child = tree's first child, grandchild = child's last child
-            s = {nm: [pt for pt, n in find(fn, "ts_subtree_summarize_children(%s, language)" % fn.cur(nm))] for nm in ("grandchild", "child", "tree")}
+    # the three nodes of a rotation, by role (bottom-up order of the re-summarise calls), whatever they are called
+    calls3 = sorted((pt, arg_var(n, 0)) for pt, n in find(fn, "ts_subtree_summarize_children(_, language)"))
+    if len(calls3) == 3:
+        fn.defs(0)
+        for role, cur in zip(("grandchild", "child", "tree"), (c[1] for c in calls3)):
+            if role not in fn._names.values() and cur:
+                fn._renames = dict(getattr(fn, "_renames", {}), **{role: cur})
+    s = {nm: [pt for pt, n in find(fn, "ts_subtree_summarize_children(%s, language)" % fn.cur(nm))] for nm in ("grandchild", "child", "tree")}
     if not all(len(v) == 1 for v in s.values()):
         ctx.bad("P1", "ts_subtree_compress:resummarise-three", "expected exactly one re-summarise call each for grandchild, child, tree; found %s" % {k: len(v) for k, v in s.items()})
         return
